@@ -12,6 +12,15 @@ ARM_TARGET = "arm-unknown-linux-gnueabi"      # 32-bit, little-endian, not x86 (
 A64_TARGET = "aarch64-unknown-linux-gnu"      # 64-bit, little-endian, not x86
 BIG_ENDIAN_TARGETS = (BE_TARGET, PPC_TARGET)
 FOREIGN_TARGETS = (BE_TARGET, I686_TARGET, PPC_TARGET, ARM_TARGET, A64_TARGET)
+# simulated CPU generations (see x86miri_dirs below)
+CPU_LEVELS = {
+    "cpu:sse2": "",
+    "cpu:sse3": "-C target-feature=+sse3",
+    "cpu:ssse3": "-C target-feature=+sse3,+ssse3",
+    "cpu:sse41": "-C target-feature=+sse3,+ssse3,+sse4.1",
+    "cpu:avx": "-C target-feature=+sse3,+ssse3,+sse4.1,+sse4.2,+avx",
+    "cpu:avx2": "-C target-feature=+sse3,+ssse3,+sse4.1,+sse4.2,+avx,+avx2,+fma,+bmi1,+bmi2",
+}
 BASE_RUSTFLAGS = "--cfg zerocopy_derive_union_into_bytes --cfg " + GUARD + " -A unexpected_cfgs -A deprecated -A unused"
 
 
@@ -323,8 +332,8 @@ prop(
         Leg("nostd-avx2", "release", "chacha_stream", "C02", 100000, 2000000),
     ],
     [REAL, STUB],
-    be_host={"quick": [(BE_TARGET, 1, "cipher"), (PPC_TARGET, 1, "cipher"), (ARM_TARGET, 1, "cipher")],
-             "thorough": [(BE_TARGET, 6, "cipher"), (PPC_TARGET, 3, "cipher"), (ARM_TARGET, 3, "cipher"), (A64_TARGET, 3, "cipher"), (I686_TARGET, 3, "cipher")]},
+    be_host={"quick": [(BE_TARGET, 1, "cipher"), (PPC_TARGET, 1, "cipher"), (ARM_TARGET, 1, "cipher"), ("cpu:sse2", 1, "cipher"), ("cpu:sse41", 1, "cipher"), ("cpu:avx2", 1, "cipher")],
+             "thorough": [(BE_TARGET, 6, "cipher"), (PPC_TARGET, 3, "cipher"), (ARM_TARGET, 3, "cipher"), (A64_TARGET, 3, "cipher"), (I686_TARGET, 3, "cipher")] + [(c_, 3, "cipher") for c_ in CPU_LEVELS]},
     huge=[
         dict(what="cipher:XChaCha20", len=4 * (1 << 30) + 3, pre=27),
         dict(what="cipher:ChaCha20", len=2 * (1 << 30) + 5),
@@ -367,8 +376,8 @@ prop(
         Leg("nostd-avx2", "release", "chacha_stream", "C11", 100000, 2000000),
     ],
     [REAL, STUB],
-    be_host={"quick": [(BE_TARGET, 1, "cipher"), (PPC_TARGET, 1, "cipher"), (ARM_TARGET, 1, "cipher")],
-             "thorough": [(BE_TARGET, 6, "cipher"), (PPC_TARGET, 3, "cipher"), (ARM_TARGET, 3, "cipher"), (A64_TARGET, 3, "cipher"), (I686_TARGET, 3, "cipher")]},
+    be_host={"quick": [(BE_TARGET, 1, "cipher"), (PPC_TARGET, 1, "cipher"), (ARM_TARGET, 1, "cipher"), ("cpu:sse2", 1, "cipher"), ("cpu:sse41", 1, "cipher"), ("cpu:avx2", 1, "cipher")],
+             "thorough": [(BE_TARGET, 6, "cipher"), (PPC_TARGET, 3, "cipher"), (ARM_TARGET, 3, "cipher"), (A64_TARGET, 3, "cipher"), (I686_TARGET, 3, "cipher")] + [(c_, 3, "cipher") for c_ in CPU_LEVELS]},
     # requests longer than everything that is left (up to 2^38 + 1 bytes in ONE slice of untouched zero pages) must be
     # refused at once and atomically; a watchdog catches an acceptance
     huge=[
@@ -408,8 +417,10 @@ prop(
     ],
     [REAL, STUB],
     cross=[Cross("chacha_block", "C14", "checked", 40000, 400000, QUICK_FIXED, ALL_FIXED, max_ops=32)],
-    be_host={"quick": [(BE_TARGET, 2, "block,cipher"), (PPC_TARGET, 1, "block,cipher"), (ARM_TARGET, 1, "block,cipher"), (A64_TARGET, 1, "block"), (I686_TARGET, 1, "block")],
-             "thorough": [(BE_TARGET, 12, "block,cipher"), (PPC_TARGET, 6, "block,cipher"), (ARM_TARGET, 6, "block,cipher"), (A64_TARGET, 6, "block,cipher"), (I686_TARGET, 6, "block,cipher")]},
+    be_host={"quick": [(BE_TARGET, 2, "block,cipher"), (PPC_TARGET, 1, "block,cipher"), (ARM_TARGET, 1, "block,cipher"), (A64_TARGET, 1, "block"), (I686_TARGET, 1, "block")]
+             + [(c_, 1, "block") for c_ in CPU_LEVELS],
+             "thorough": [(BE_TARGET, 12, "block,cipher"), (PPC_TARGET, 6, "block,cipher"), (ARM_TARGET, 6, "block,cipher"), (A64_TARGET, 6, "block,cipher"), (I686_TARGET, 6, "block,cipher")]
+             + [(c_, 6, "block,cipher") for c_ in CPU_LEVELS]},
     # double-round counts far beyond the sweep (the statement says "any number of double rounds"): `len` is the starting counter
     huge=[
         dict(what="rounds:2147483648", len=0xfffffffe),
@@ -446,8 +457,9 @@ prop(
     [REAL, STUB],
     # set/get round trips, the untouched other parameter, equality with a directly created state and the two predicates, asserted
     # on the foreign hosts themselves (portable backend; the counter helpers of guts.rs are cfg(target_endian) code)
-    be_host={"quick": [(BE_TARGET, 2, "params"), (PPC_TARGET, 2, "params"), (ARM_TARGET, 1, "params"), (I686_TARGET, 1, "params")],
-             "thorough": [(BE_TARGET, 20, "params"), (PPC_TARGET, 20, "params"), (ARM_TARGET, 10, "params"), (I686_TARGET, 10, "params"), (A64_TARGET, 10, "params")]},
+    be_host={"quick": [(BE_TARGET, 2, "params"), (PPC_TARGET, 2, "params"), (ARM_TARGET, 1, "params"), (I686_TARGET, 1, "params"), ("cpu:sse2", 1, "params"), ("cpu:avx2", 1, "params")],
+             "thorough": [(BE_TARGET, 20, "params"), (PPC_TARGET, 20, "params"), (ARM_TARGET, 10, "params"), (I686_TARGET, 10, "params"), (A64_TARGET, 10, "params")]
+             + [(c_, 10, "params") for c_ in CPU_LEVELS]},
 )
 
 prop(
@@ -535,9 +547,11 @@ prop(
     ],
     # (the lane-level vector programs are not compared on the big-endian host: their storage-conversion loads are a
     # native-memory pun by design; the byte-I/O programs - vecopsb - are)
-    be_host={"quick": [(BE_TARGET, 1, "cipher,jh1,vecopsb"), (I686_TARGET, 1, "vecops,vecopsb"), (PPC_TARGET, 1, "jh1,vecopsb,block"), (ARM_TARGET, 1, "jh1,vecops,vecopsb")],
+    be_host={"quick": [(BE_TARGET, 1, "cipher,jh1,vecopsb"), (I686_TARGET, 1, "vecops,vecopsb"), (PPC_TARGET, 1, "jh1,vecopsb,block"), (ARM_TARGET, 1, "jh1,vecops,vecopsb")]
+             + [(c_, 1, "cipher,hash,vecops,vecopsb") for c_ in CPU_LEVELS],
              "thorough": [(BE_TARGET, 2, "block,cipher,hash,vecopsb"), (I686_TARGET, 3, "cipher,hash,vecops,vecopsb"), (PPC_TARGET, 2, "block,cipher,hash,vecopsb"),
-                          (ARM_TARGET, 2, "block,cipher,hash,vecops,vecopsb"), (A64_TARGET, 2, "block,cipher,hash,vecops,vecopsb")]},
+                          (ARM_TARGET, 2, "block,cipher,hash,vecops,vecopsb"), (A64_TARGET, 2, "block,cipher,hash,vecops,vecopsb")]
+             + [(c_, 3, "block,cipher,hash,params,vecops,vecopsb") for c_ in CPU_LEVELS]},
 )
 
 
@@ -655,7 +669,8 @@ prop(
     selftest=True,
     # the same jumped-counter operations on hosts with another word size / byte order (Miri): a 32-bit usize must still
     # count 2^32 bits
-    be_host={"quick": [(I686_TARGET, 1, "counters"), (PPC_TARGET, 1, "counters")], "thorough": [(I686_TARGET, 3, "counters"), (BE_TARGET, 1, "counters"), (PPC_TARGET, 2, "counters"), (ARM_TARGET, 2, "counters")]},
+    be_host={"quick": [(I686_TARGET, 1, "counters"), (PPC_TARGET, 1, "counters"), ("cpu:sse2", 1, "counters"), ("cpu:avx2", 1, "counters")],
+             "thorough": [(I686_TARGET, 3, "counters"), (BE_TARGET, 1, "counters"), (PPC_TARGET, 2, "counters"), (ARM_TARGET, 2, "counters")] + [(c_, 2, "counters") for c_ in CPU_LEVELS]},
 )
 
 
@@ -963,10 +978,53 @@ def be_dirs():
     return bdir, mpath, tag
 
 
+# Simulated CPU generations: the x86-64 build (ppv-lite86's x86 backend, run-time detection as shipped) interpreted by Miri with
+# exactly the listed instruction-set extensions. The interpreter answers feature detection with that set and refuses ("calling a
+# function that requires unavailable target features") any instruction of an extension the simulated CPU lacks - what a real CPU of
+# that generation does with SIGILL. ppv-lite86 compiles its portable backend under cfg(miri); the check builds a copy of that
+# one crate from /repo's working tree with the four `miri` conditions of src/lib.rs switched by --cfg cryptocorrosion_verif_x86_miri
+# (an overlay in /verif/build, nothing in /repo changes).
+
+
+def x86miri_dirs():
+    tag = "x86miri" + repo_tag()
+    bdir = os.path.join(VERIF, "build", tag)
+    os.makedirs(os.path.join(bdir, ".cargo"), exist_ok=True)
+    # overlay copy of ppv-lite86 from REPO's working tree
+    src = os.path.join(REPO, "utils-simd", "ppv-lite86")
+    ov = os.path.join(bdir, "ppv-lite86")
+    if os.path.isdir(ov):
+        shutil.rmtree(ov)
+    shutil.copytree(src, ov, ignore=shutil.ignore_patterns("target"))
+    libp = os.path.join(ov, "src", "lib.rs")
+    text = open(libp).read()
+    if text.count("    not(miri)\n") != 2 or text.count("    miri,\n") != 2:
+        raise HarnessError("ppv-lite86/src/lib.rs no longer has the four cfg(miri) conditions the x86-under-Miri overlay switches")
+    text = text.replace("    not(miri)\n", "    any(not(miri), cryptocorrosion_verif_x86_miri)\n").replace("    miri,\n", "    all(miri, not(cryptocorrosion_verif_x86_miri)),\n")
+    open(libp, "w").write(text)
+    tmpl = open(os.path.join(VERIF, "miribe", "Cargo.toml.in")).read()
+    manifest = tmpl.replace("@REPO@/utils-simd/ppv-lite86", ov).replace("@REPO@", REPO).replace("@BE@", os.path.join(VERIF, "miribe"))
+    mpath = os.path.join(bdir, "Cargo.toml")
+    if not os.path.exists(mpath) or open(mpath).read() != manifest:
+        open(mpath, "w").write(manifest)
+    if not os.path.exists(os.path.join(bdir, "Cargo.lock")):
+        shutil.copy(os.path.join(VERIF, "sim", "Cargo.lock.seed"), os.path.join(bdir, "Cargo.lock"))
+    open(os.path.join(bdir, ".cargo", "config.toml"), "w").write("[net]\noffline = true\n")
+    return bdir, mpath, tag
+
+
+X86MIRI_LOCK = __import__("threading").Lock()
+X86MIRI_READY = {}
+
+
 HOST_DESCR = {BE_TARGET: "big-endian 64-bit host (s390x build interpreted by Miri)", I686_TARGET: "32-bit host (i686 build interpreted by Miri: usize is 32 bits)",
               PPC_TARGET: "big-endian 32-bit host (powerpc build interpreted by Miri)", ARM_TARGET: "32-bit ARM host (arm build interpreted by Miri)",
               A64_TARGET: "AArch64 host (aarch64 build interpreted by Miri)"}
+for _lvl in CPU_LEVELS:
+    HOST_DESCR[_lvl] = "simulated x86-64 CPU with %s and nothing newer (x86 backend interpreted by Miri)" % (_lvl.split(":")[1].upper())
 HOST_NAME = {BE_TARGET: "big-endian host", I686_TARGET: "32-bit host", PPC_TARGET: "big-endian 32-bit host", ARM_TARGET: "32-bit ARM host", A64_TARGET: "AArch64 host"}
+for _lvl in CPU_LEVELS:
+    HOST_NAME[_lvl] = "simulated CPU generation %s" % _lvl.split(":")[1]
 
 
 def be_sysroot(target=BE_TARGET):
@@ -987,7 +1045,15 @@ def be_run(seed_, scale, sections, big, target=BE_TARGET):
     env = dict(os.environ)
     env["RUSTFLAGS"] = BASE_RUSTFLAGS
     env["CARGO_NET_OFFLINE"] = "true"
-    if big:
+    if big and target in CPU_LEVELS:
+        with X86MIRI_LOCK:
+            if "dirs" not in X86MIRI_READY:
+                X86MIRI_READY["dirs"] = x86miri_dirs()
+        bdir, mpath, tag = X86MIRI_READY["dirs"]
+        env["RUSTFLAGS"] = (BASE_RUSTFLAGS + " --cfg cryptocorrosion_verif_x86_miri " + CPU_LEVELS[target]).strip()
+        env["CARGO_TARGET_DIR"] = os.path.join(VERIF, "target", tag + "-" + target.split(":")[1])
+        cmd = ["cargo", "+nightly", "miri", "run", "--offline", "--quiet", "--manifest-path", mpath, "--", str(seed_), str(scale), sections]
+    elif big:
         env["MIRI_SYSROOT"] = be_sysroot(target)
         env["CARGO_TARGET_DIR"] = os.path.join(VERIF, "target", tag + "-" + target.split("-")[0])
         cmd = ["cargo", "+nightly", "miri", "run", "--offline", "--quiet", "--target", target, "--manifest-path", mpath, "--", str(seed_), str(scale), sections]
@@ -1055,8 +1121,10 @@ def run_be_layer(pid, spec_be, tier, sd, replay_dir, results, violations, known)
     found = []
     if failed:
         tail = "\n".join(l for l in err_be.splitlines() if l.strip())[-1200:]
-        what = "refill4 differs from four refills" if "refill4" in err_be else "panic" if "panicked" in err_be else "undefined behaviour" if "Undefined Behavior" in err_be else "abnormal exit"
-        found.append(("%s fails:%s" % (hostname, what), "after %d of %d operations: %s" % (len(be), len(le), tail)))
+        what = ("an instruction of an extension this CPU lacks" if "unavailable target features" in err_be else "refill4 differs from four refills" if "refill4" in err_be
+                else "panic" if "panicked" in err_be else "undefined behaviour" if "Undefined Behavior" in err_be else "abnormal exit")
+        headline = next((l.strip() for l in err_be.splitlines() if l.startswith("error:") or "panicked at" in l), "")
+        found.append(("%s fails:%s" % (hostname, what), "after %d of %d operations: %s ... %s" % (len(be), len(le), headline[:300], tail[-700:])))
     # a program of vector operations is a chain (every step reads the registers the earlier ones wrote): only its first
     # differing step is a finding, what follows is its consequence
     chain_first = {}
@@ -1077,7 +1145,7 @@ def run_be_layer(pid, spec_be, tier, sd, replay_dir, results, violations, known)
         seen.add(sig)
         f = dict(kind="miri_be", verif_seed=sd, scale=scale, sections=sections, target=target, ops=[], minimised_from=len(le),
                  violation=dict(properties=[pid], invariant="B1", signature=sig, at_op=0, detail=detail))
-        path = os.path.join(replay_dir, "%s-%s-%s.json" % (pid, "be" if target == BE_TARGET else target.split("-")[0], hashlib.sha1(sig.encode()).hexdigest()[:8]))
+        path = os.path.join(replay_dir, "%s-%s-%s.json" % (pid, "be" if target == BE_TARGET else target.replace(":", "_").split("-")[0], hashlib.sha1(sig.encode()).hexdigest()[:8]))
         json.dump(f, open(path, "w"))
         f["replay"] = path
         kf = open_finding_for(pid, sig)
